@@ -21,17 +21,39 @@ func TestCheck(t *testing.T) { enumx.Main(t, "C03", "algorithms", run) }
 type unit struct {
 	sec string
 	fn  func(u *ctx)
+	idx int
 }
 
 type ctx struct {
 	r     *enumx.Run
 	e     *env
 	n, nt int64
+	found []pending
+	perK  map[string]int
+}
+
+// pending is a finding waiting to be reported: shards run in parallel, the
+// findings are handed to the Run afterwards in shard order, so that the (at
+// most 20 per key) findings kept and their replay files are the same in every
+// run.
+type pending struct {
+	f finding
+	c Case
 }
 
 func (u *ctx) emit(c Case, fs []finding) {
 	for _, f := range fs {
-		u.r.Violation(f.key, f.msg, c)
+		if u.perK == nil {
+			u.perK = map[string]int{}
+		}
+		if u.perK[f.key]++; u.perK[f.key] > 20 {
+			continue
+		}
+		if c.Mut != nil {
+			m := *c.Mut
+			c.Mut = &m
+		}
+		u.found = append(u.found, pending{f, c})
 	}
 }
 
@@ -88,11 +110,11 @@ func run(r *enumx.Run, replay *enumx.ReplayCase) {
 	// RSA private-key operations cost milliseconds (kit rebuilds the key from
 	// the JWK on every call, without CRT values): the xor values tried per
 	// position are tiered for the asymmetric mutations only
-	asymXor := []byte{0x01, 0x80, 0xFF} // signature / digest / label
-	rsaCTXor := []byte{0x01}            // RSA-OAEP ciphertext
+	asymXor := []byte{0x01, 0x80, 0xFF} // signature / digest / label: every position x these xor values
+	rsaCTXor := []byte{0x01}            // RSA-OAEP ciphertext: every position x these xor values
 	if r.Thorough() {
-		asymXor = allXor
-		rsaCTXor = []byte{0x01, 0x02, 0x04, 0x08, 0x10, 0x20, 0x40, 0x80, 0xFF}
+		asymXor = []byte{0x01, 0x02, 0x04, 0x08, 0x10, 0x20, 0x40, 0x80, 0xFF}
+		rsaCTXor = []byte{0x01, 0x80, 0xFF}
 	}
 
 	// sym-dec varies nonce length and tag length together. thorough: all 33x33
@@ -106,7 +128,7 @@ func run(r *enumx.Run, replay *enumx.ReplayCase) {
 	fullPairs := func(pl int) bool { return r.Thorough() || boundary[pl] }
 
 	var units []unit
-	add := func(sec string, fn func(u *ctx)) { units = append(units, unit{sec, fn}) }
+	add := func(sec string, fn func(u *ctx)) { units = append(units, unit{sec, fn, len(units)}) }
 
 	// ---- sym-enc and sym-dec
 	nonceAll := make([]int, 33)
@@ -444,16 +466,28 @@ func run(r *enumx.Run, replay *enumx.ReplayCase) {
 			}
 		}
 	}
+	found := make([][]pending, len(sorted))
 	r.Parallel(len(sorted), func(i int) {
 		u := &ctx{r: r, e: getEnv()}
 		t0 := time.Now()
 		sorted[i].fn(u)
+		found[i] = u.found
 		busy[sorted[i].sec].Add(int64(time.Since(t0)))
 		putEnv(u.e)
 		r.Count(u.n, u.nt)
 		evals[sorted[i].sec].Add(u.n)
 		done[sorted[i].sec].Add(1)
 	})
+	// report in the order the shards were built (not the order they ran in)
+	byIdx := make([][]pending, len(units))
+	for i := range sorted {
+		byIdx[sorted[i].idx] = found[i]
+	}
+	for _, ps := range byIdx {
+		for _, p := range ps {
+			r.Violation(p.f.key, p.f.msg, p.c)
+		}
+	}
 	perSec := map[string]int64{}
 	busySec := map[string]float64{}
 	for _, sec := range []string{"sym-enc", "sym-dec", "sym-mut", "kw", "aead", "asym-enc", "asym-dec", "asym-mut", "sig", "sig-mut"} {
